@@ -139,6 +139,9 @@ def run_cases(ctx, with_model=True, stop_first=False):
     cfgs.append(dict(dev="ring", tol=1e-3, a=0.3, b=0.6, B=0.5, units="nm"))
     # the boundary value of the drag (no momentum: plain under-relaxed fixed-point iteration)
     cfgs.append(dict(dev="ring", tol=1e-3, a=0.5, b=1.0, B=0.6))
+    # a small step size with the default drag: the heavy-ball velocity is then ~ step/drag times the residual, so an exit
+    # test on the change of the iterate (instead of on kernel(iterate) - iterate) would stop 25 times too early
+    cfgs.append(dict(dev="ring", tol=1e-3, a=0.02, b=0.5, B=0.5))
     if not ctx.quick:
         cfgs += [dict(dev="ring", tol=1e-4, a=0.1, b=0.5, B=0.8), dict(dev="union", tol=1e-3, a=0.5, b=1.0, B=0.6), dict(dev="bar", tol=1e-2, a=1.0, b=1.0, B=0.3, cur={"source": 3.0, "drain": -3.0})]
     # history: a second screened solve on a copy that SHARES the mesh object, with other material constants
